@@ -468,6 +468,32 @@ func genYTree(r *Rng, tier string, n int, emit func(Case)) {
 	}
 }
 
+// real YANG modules (containers, lists, leaves, choices with explicit and short-hand cases, statements after the
+// children): the tree walk of the real parser against the model's tree with the parser's one normalisation
+// (a short-hand case is wrapped in a case node of the same name and position)
+func genYReal(r *Rng, tier string, n int, emit func(Case)) {
+	for i := 0; i < n; i++ {
+		g := &sgen{r: r, forData: true, withCfg: true, maxDepth: 2 + r.Intn(2)}
+		top := g.genKids(0, false)
+		var refs []astRef
+		collectNodes(top, nil, &refs)
+		for _, ref := range refs {
+			switch cstr(ref.node, "k") {
+			case "case":
+				if ks := carr(ref.node, "kids"); len(ks) == 1 && cstr(ks[0].(map[string]any), "k") != "choice" && r.Chance(60) {
+					ref.node["_shorthand"] = true
+				}
+			case "choice", "container", "list":
+				if r.Chance(35) {
+					ref.node["_descAfter"] = pick(r, []string{"d", "after the children", "x y"})
+				}
+			}
+		}
+		text := renderSchema(top)
+		emit(Case{"k": "yparse", "hex": hex.EncodeToString([]byte(text)), "text": text, "real": true})
+	}
+}
+
 func genYFuzz(r *Rng, tier string, n int, emit func(Case)) {
 	alpha := []byte{'a', ' ', '\n', '"', '\'', '{', '}', ';', '+', '/', '*', '\\', ':', 0xc3, 0xa9, '\t'}
 	var rec func(prefix []byte, depth int)
@@ -513,4 +539,5 @@ func init() {
 	register(&Stream{Name: "yfuzz", Prop: "C07", Gen: genYFuzz, Run: runYParse})
 	register(&Stream{Name: "yarg", Prop: "C08", Gen: genYArg, Run: runYParse})
 	register(&Stream{Name: "ytree", Prop: "C10", Gen: genYTree, Run: runYParse})
+	register(&Stream{Name: "yreal", Prop: "C10", Gen: genYReal, Run: runYParse})
 }
